@@ -170,6 +170,13 @@ def delete_requests(rnd):
     if rnd.random() < 0.7:
         blk = rnd.choice((a, b))
         ctx.insert_at(blk, rnd.choice((0, 1)) if blk is a else 0, literal_patch(rnd.choice(("nop", "nop\n.L_x:"))))
+        # ... and more of them, also where directives sit (the end of the procedure, the place of .cfi_undefined): the blocks are
+        # split there and the modify layer moves directives between the per-block dictionaries the table hands out
+        for k_ in range(rnd.choice((0, 0, 1, 2, 3))):
+            blk2, off2 = rnd.choice(((a, 2), (a, 3), (b, 7), (b, 8), (b, 8)))
+            if (blk2 is blk) and off2 in (0, 1):
+                continue
+            ctx.insert_at(blk2, off2, literal_patch(rnd.choice(("nop", f"nop\n.L_y{k_}:\nnop", f".L_z{k_}:\nnop"))))
     reqs = []
     for s_ in (used, pers, free):
         for _ in range(rnd.choice((0, 1, 1, 2))):
